@@ -21,6 +21,8 @@ def gen(rng):
         p["fn_raise_type"] = rng.choice(["user", "user", "stop", "key"])
     if op == "sequence" and rng.random() < 0.3:
         p["iter"] = True
+    if pos and rng.random() < 0.2:
+        p["out_cb"] = rng.choice(pos)
     return p
 
 
